@@ -201,7 +201,15 @@ pub fn run_c10(ctx: &Ctx) -> Report {
                         cv.push(MCmd::Prepare(format!("r{}", step).into_bytes()), Some(Script::PrepErr(1064, b"no".to_vec())));
                         shape.push('r');
                     } else {
-                        cv.push(MCmd::Prepare(format!("s{}", step).into_bytes()), Some(Script::PrepOk { id, params: param_cols(n), cols: vec![] }));
+                        // (a statement's text is the backend's business, also when it reads like something
+                        // the library answers itself for COM_QUERY)
+                        let text = match rng.below(8) {
+                            0 => b"SELECT @@max_allowed_packet".to_vec(),
+                            1 => b"select @@session.x".to_vec(),
+                            2 => b"USE db".to_vec(),
+                            _ => format!("s{}", step).into_bytes(),
+                        };
+                        cv.push(MCmd::Prepare(text), Some(Script::PrepOk { id, params: param_cols(n), cols: vec![] }));
                         live[k] = Some(n);
                         pendl[k].clear();
                         shape.push('P');
